@@ -239,3 +239,126 @@ impl HttpCodec for WindTraced {
         self.0.protocol()
     }
 }
+
+// ---------------------------------------------------------------------------------------------
+// sync points: a harness forces a schedule between threads of the real code
+
+/// Named gates. A hook in the implementation calls [`sync::gate`] / [`sync::gate_probe`]; unless the
+/// harness has armed the gate of that name the call returns at once. An armed gate parks the calling
+/// thread (it is a std thread of the runtime: whatever std mutexes it holds stay held) until the harness
+/// releases it; a gate fires once. While parked, `gate_probe` keeps evaluating its probe - the state of
+/// the two mutexes around the sync point, `(first, second)` = "is locked" - and publishes whether
+/// BOTH are taken: the parked thread holds one of them, so "both" means that another thread has taken the
+/// other one.
+pub mod sync {
+    use std::collections::HashMap;
+    use std::sync::{Condvar, Mutex};
+    use std::time::{Duration, Instant};
+
+    #[derive(Default, Clone, Copy)]
+    struct Gate {
+        armed: bool,
+        arrived: bool,
+        released: bool,
+        both_locked: bool,
+    }
+
+    static GATES: Mutex<Option<HashMap<String, Gate>>> = Mutex::new(None);
+    static CV: Condvar = Condvar::new();
+
+    fn with<R>(name: &str, f: impl FnOnce(&mut Gate) -> R) -> R {
+        let mut g = GATES.lock().unwrap_or_else(|e| e.into_inner());
+        let m = g.get_or_insert_with(HashMap::new);
+        let r = f(m.entry(name.to_string()).or_default());
+        CV.notify_all();
+        r
+    }
+
+    /// Harness: the next thread that reaches the gate is parked there
+    pub fn arm(name: &str) {
+        with(name, |g| *g = Gate { armed: true, ..Default::default() });
+    }
+
+    /// Harness: forget every gate (threads parked at armed gates are let go)
+    pub fn reset() {
+        let mut g = GATES.lock().unwrap_or_else(|e| e.into_inner());
+        if let Some(m) = g.as_mut() {
+            for x in m.values_mut() {
+                x.armed = false;
+                x.released = true;
+            }
+        }
+        CV.notify_all();
+    }
+
+    /// Harness: let the parked thread go on
+    pub fn release(name: &str) {
+        with(name, |g| g.released = true);
+    }
+
+    fn wait_for(name: &str, budget: Duration, pred: impl Fn(&Gate) -> bool) -> bool {
+        let deadline = Instant::now() + budget;
+        let mut g = GATES.lock().unwrap_or_else(|e| e.into_inner());
+        loop {
+            if g.as_ref().and_then(|m| m.get(name)).map(&pred).unwrap_or(false) {
+                return true;
+            }
+            let now = Instant::now();
+            if now >= deadline {
+                return false;
+            }
+            g = CV.wait_timeout(g, (deadline - now).min(Duration::from_millis(20))).unwrap_or_else(|e| e.into_inner()).0;
+        }
+    }
+
+    /// Harness: wait until a thread is parked at the gate
+    pub fn wait_arrived(name: &str, budget: Duration) -> bool {
+        wait_for(name, budget, |g| g.arrived)
+    }
+
+    /// Harness: wait until the thread parked at the gate sees both mutexes of its sync point taken
+    pub fn wait_both_locked(name: &str, budget: Duration) -> bool {
+        wait_for(name, budget, |g| g.both_locked)
+    }
+
+    /// Hook: a sync point without a probe
+    pub fn gate(name: &str) {
+        gate_probe(name, &|| (false, false))
+    }
+
+    /// Hook: a sync point between two lock acquisitions
+    pub fn gate_probe(name: &str, probe: &dyn Fn() -> (bool, bool)) {
+        let armed = {
+            let g = GATES.lock().unwrap_or_else(|e| e.into_inner());
+            g.as_ref().and_then(|m| m.get(name)).map(|x| x.armed && !x.arrived).unwrap_or(false)
+        };
+        if !armed {
+            return;
+        }
+        let park = || {
+            with(name, |g| g.arrived = true);
+            loop {
+                let (a, b) = probe();
+                let go = with(name, |g| {
+                    g.both_locked |= a && b;
+                    g.released
+                });
+                if go {
+                    return;
+                }
+                let g = GATES.lock().unwrap_or_else(|e| e.into_inner());
+                let _ = CV.wait_timeout(g, Duration::from_millis(2));
+            }
+        };
+        // A parked worker thread of the runtime would keep what sits in its run queue and its
+        // (non-stealable) LIFO slot - possibly the very task the schedule needs next. The worker's
+        // core is handed to another thread for the time of the wait; the mutexes this thread holds
+        // stay with it.
+        match tokio::runtime::Handle::try_current() {
+            Ok(h) if h.runtime_flavor() == tokio::runtime::RuntimeFlavor::MultiThread => {
+                tokio::task::block_in_place(park)
+            }
+            _ => park(),
+        }
+    }
+}
